@@ -319,7 +319,7 @@ function describeOp(env, S) {
     case "cond":
       return `cond(${sub(S.check)},${sub(S.ext)})`;
     case "typeof":
-      return `typeof(${S.path.length ? "path" : "whole"})`;
+      return `typeof(${S.ofEnum ? "enum" : S.path.length ? "path" : "whole"})`;
     case "enumMember":
       return "enumMember";
     case "ref":
@@ -375,6 +375,25 @@ export async function localiseSource(ctx, item, rootT, v, want, options) {
       if (r === "U") continue;
       const impl = implOf(parser, x);
       if (impl !== r) {
+        if (strict) {
+          // a pair that already disagrees in default mode is C01's finding, not the strict monitor's
+          const rd = item.ref.member(core, x);
+          let id;
+          try {
+            id = parser.validate(x) ? "Y" : "N";
+          } catch (e) {
+            id = "T";
+          }
+          if (rd !== "U" && id !== rd) return { skip: true };
+        }
+        // not the operator's doing if its operator-free result, compiled on its own, disagrees the same way
+        // (a literal or a leaf inside it): hand that over to the structural localiser
+        const judge = makeValidateJudge(env, ctx.compiler, item.ref, options);
+        const j = await judge(core, x);
+        if (j && j.impl === impl && j.ref === r) {
+          const loc = await localise(env, core, x, judge, { impl, ref: r });
+          return { signature: loc.signature, text: coreProgramText(env, loc.core), value: loc.value, impl, ref: r, op: `result of ${describeOp(env, S)}` };
+        }
         return {
           signature: `${impl.startsWith("T:") ? "throws" : impl}/${r}|src:${describeOp(env, S)}`,
           text,
